@@ -17,5 +17,11 @@ MCRemapPool == { [from |-> <<"bak">>, to |-> <<"py">>], [from |-> <<"cxx">>, to 
                  [from |-> <<"bak">>, to |-> <<"nope">>], [from |-> <<"x">>, to |-> <<"PY">>], [from |-> <<"cxx">>, to |-> <<"go", "mod">>],
                  [from |-> <<"d", "ts">>, to |-> <<"py">>],
                  [from |-> <<"Gemfile">>, to |-> <<"py">>],       \* a whole-name key with an upper-case letter
-                 [from |-> <<"uname">>, to |-> <<"rs">>] }        \* "uname" is spelt with non-ASCII letters by the concretiser
+                 [from |-> <<"uname">>, to |-> <<"rs">>],
+                 [from |-> <<"cxx">>, to |-> <<"cxx">>] }         \* onto itself: the target is a -E key, not a grammar
+\* two -E flags: independent ones, and chains in which one mapping's target is the other's key (no alias-of-alias:
+\* every target must itself be a registered grammar, so the chain is rejected)
+MCRemapPairs == { {[from |-> <<"cxx">>, to |-> <<"cpp">>], [from |-> <<"bak">>, to |-> <<"py">>]},
+                  {[from |-> <<"cxx">>, to |-> <<"cpp">>], [from |-> <<"bak">>, to |-> <<"cxx">>]},
+                  {[from |-> <<"bak">>, to |-> <<"cxx">>], [from |-> <<"cxx">>, to |-> <<"bak">>]} }        \* "uname" is spelt with non-ASCII letters by the concretiser
 =============================================================================
